@@ -172,6 +172,11 @@ def dsGraftStep [Add α] [Mul α] [Sub α] [Div α] [Neg α] [LT α] [DecidableL
   | .none => (g, acc)
   | .sqrtN => (g.map (fun x => 1 * sgn x), acc)
 
+/-- `_skip_preconditioning(param)`: rank below `skip_preconditioning_rank_lt` or any dimension above
+`skip_preconditioning_dim_size_gt`. -/
+def dsSkip (rankLt dimGt : Nat) (shape : List Nat) : Bool :=
+  decide (shape.length < rankLt) || shape.any (fun s => decide (dimGt < s))
+
 /-- `preconditioner_multiplier = lr if not decoupled_learning_rate else 1.0` -/
 def precondMultiplier [OfNat α 1] (c : DSConfig α) : α := if c.decoupledLr then 1 else c.lr
 
@@ -219,6 +224,27 @@ def tfRmspropStep [Add α] [Mul α] [Sub α] [Div α] [BEq α] [OfNat α 1] (sqr
 /-- `optax.scale(-1.0 * learning_rate)` -/
 def tfFinal [Mul α] [Neg α] [OfNat α 1] (lr : α) (v : List α) : List α :=
   v.map (fun x => x * (-1 * lr))
+
+/-- The Tearfree graft optimizers with a closed form (`ADAFACTOR` is optax's and stays opaque). -/
+inductive TFGraftType where
+  | sgd | rmsprop
+  deriving DecidableEq, Repr, Inhabited
+
+/-- The graft optimizer's own step: `optax.identity()` for SGD, `_rmsprop` otherwise. -/
+def tfGraftStep [Add α] [Mul α] [Sub α] [Div α] [BEq α] [OfNat α 1] (sqrt : α → α)
+    (gt : TFGraftType) (decay eps : α) (acc g : List α) : List α × List α :=
+  match gt with
+  | .sgd => (g, acc)
+  | .rmsprop => tfRmspropStep sqrt decay eps acc g
+
+/-- One update of `tearfree(lr, options)` for one leaf with momentum and weight decay off
+(`momentum.apply` is then the identity): graft step, `maybe_graft` against the second-order update `b`
+(whatever produced it), `optax.scale(-lr)`. Returns (update, new graft accumulator). -/
+def tfTransform [Add α] [Mul α] [Sub α] [Div α] [Neg α] [LT α] [DecidableLT α] [BEq α]
+    [OfNat α 0] [OfNat α 1] (sqrt : α → α) (gt : TFGraftType) (decay eps lr : α)
+    (count start : Nat) (masked : Bool) (g acc b : List α) : List α × List α :=
+  let r := tfGraftStep sqrt gt decay eps acc g
+  (tfFinal lr (tfMaybeGraft sqrt count start masked r.1 b), r.2)
 
 end Lists
 
